@@ -94,8 +94,18 @@ Theorem c12_belongs_links : forall os ops s A,
 Proof. exact bt_history. Qed.
 Print Assumptions c12_belongs_links.
 
+(* belongs to: when the Unscoped operations of a history are Delete / Clear only, every foreign key
+   of the handle keeps pointing at a record, so Count and Find stay exact (c12_belongs_count_find).
+   Unscoped Replace/Append is excluded: c12_refuted_belongs_unscoped_replace. *)
+Theorem c12_belongs_links_point_at_records : forall os ops s,
+  wf_bt os s -> hist_ok_g KBelongs os (op_ok_bt os) s ops ->
+  Forall (fun uo => fst uo = false \/ no_values (snd uo)) ops ->
+  tgt_ok os s -> tgt_ok os (final KBelongs os s ops).
+Proof. exact bt_links_point_at_records. Qed.
+Print Assumptions c12_belongs_links_point_at_records.
+
 (* belongs to, histories WITHOUT Unscoped: records survive and every foreign key keeps pointing at
-   a record (the Unscoped half is false: the c12_refuted_belongs_unscoped theorems) *)
+   a record *)
 Theorem c12_belongs_scoped_partial : forall os ops s,
   wf_bt os s -> hist_ok_g KBelongs os (op_ok_bt os) s ops -> Forall (fun uo => fst uo = false) ops ->
   tgt_ok os s ->
@@ -116,17 +126,6 @@ Theorem c12_refuted_belongs_unscoped_replace :
 Proof. exact refuted_belongs_unscoped_replace. Qed.
 Print Assumptions c12_refuted_belongs_unscoped_replace.
 
-Theorem c12_refuted_belongs_unscoped_delete :
-  let s := final KBelongs [1] bt_init [(false, OAppend [[11]]); (true, ODelete [12])] in
-  links KBelongs s 1 = [11] /\ tgt s = [12] /\ find_ids KBelongs [1] s = [].
-Proof. exact refuted_belongs_unscoped_delete. Qed.
-Print Assumptions c12_refuted_belongs_unscoped_delete.
-
-Theorem c12_refuted_belongs_unscoped_clear :
-  map snd (run KBelongs [1] bt_init [(false, OAppend [[11]]); (true, OClear)]) = [false; true].
-Proof. exact refuted_belongs_unscoped_clear. Qed.
-Print Assumptions c12_refuted_belongs_unscoped_clear.
-
 Theorem c12_refuted_m2m_slice_replace :
   let s := final KM2M [1; 2] m2m_init [(false, OAppend [[11]; [12]]); (false, OReplace [[12]; [11]])] in
   links KM2M s 1 = [11; 12] /\
@@ -145,3 +144,15 @@ Print Assumptions c12_refuted_steal.
 (* non-vacuity: a well-formed state and an admissible history (Append, Unscoped Delete, Replace, Clear) *)
 Example c12_has_instance : wf_has [1] ex_init /\ hist_ok KHasMany [1] ex_init ex_ops.
 Proof. exact has_instance. Qed.
+
+(* the inputs of the two belongs-to defects fixed in /repo (d23ce2a, 75c7076) behave as specified *)
+Example c12_former_belongs_unscoped_delete :
+  let s := final KBelongs [1] bt_init [(false, OAppend [[11]]); (true, ODelete [12])] in
+  links KBelongs s 1 = [11] /\ tgt s = [11; 12] /\ find_ids KBelongs [1] s = [11].
+Proof. exact former_belongs_unscoped_delete. Qed.
+
+Example c12_former_belongs_unscoped_clear :
+  let s := final KBelongs [1] bt_init [(false, OAppend [[11]]); (true, OClear)] in
+  links KBelongs s 1 = [] /\ tgt s = [12] /\
+  map snd (run KBelongs [1] bt_init [(false, OAppend [[11]]); (true, OClear)]) = [false; false].
+Proof. exact former_belongs_unscoped_clear. Qed.
